@@ -127,6 +127,10 @@ def run():
         stops = [c for c in cases if c["status"] == "aborted"]      # contain an explicit @fail: last file of a directory
         rng.shuffle(quiet)
         rng.shuffle(stops)
+        # a file with an explicit @fail ends its process, so each needs one of its own: every single-block one, and a
+        # seeded sample of the others (all kinds/variants still meet an @fail neighbour across seeds)
+        nstop_all = len(stops)
+        stops = [c for c in stops if len(c["file"]) == 1] + [c for c in stops if len(c["file"]) > 1][:1200 if thorough else 36]
         per = PERDIR if len(quiet) >= PERDIR * len(stops) else max(1, len(quiet) // max(1, len(stops)))
         dirs = []
         while quiet or stops:
@@ -197,6 +201,7 @@ def run():
         chk.cov["cases_sampled"] = len(cases) - nex
         chk.cov["processes"] = len(runs) + nalone
         chk.cov["block_variants"] = len(egoctl.TEST_BODIES)
+        chk.cov["files_with_explicit_fail_run"] = "%d of %d generated" % (sum(1 for d in dirs if d[-1]["status"] == "aborted"), nstop_all)
         chk.cov["rule"] = ("case = one finished run of TestRunner_Gen (a test file as a sequence of (kind, variant) blocks + the report and "
                            "summary counts the spec computes), written out and run by `ego test`; evaluations = @test blocks whose "
                            "reported result was compared; non-trivial = files mixing at least two kinds")
